@@ -1,6 +1,7 @@
 package main
 
 import (
+	"fmt"
 	"go/ast"
 	"sort"
 )
@@ -32,6 +33,20 @@ func genRpmFacts() {
 	}
 	sort.Strings(l)
 	facts["rpm.uncheckedAccessorCalls"] = l
+	// does RPMFile still make the signature header depend on the region tag RPMTAG_HEADERSIGNATURES being its first entry?
+	needsRegion := false
+	if rf := findFunc(f, "RPMFile"); rf != nil {
+		ast.Inspect(rf.Body, func(n ast.Node) bool {
+			if se, ok := n.(*ast.SelectorExpr); ok && se.Sel.Name == "RPMTAG_HEADERSIGNATURES" {
+				needsRegion = true
+			}
+			return true
+		})
+	} else {
+		needsRegion = true
+	}
+	facts["rpm.sigHeaderNeedsRegionTag"] = needsRegion
+	writeGen("RpmFacts", fmt.Sprintf("def rpmSigHeaderNeedsRegionTag : Bool := %v\n", needsRegion))
 	// key id format verb in rpm.go
 	g := parse("internal/file/rpm.go")
 	verbs := []string{}
